@@ -181,7 +181,7 @@ pub fn run(seed: u64, count: usize, outdir: &str) -> std::io::Result<i32> {
             for _ in 0..extra { let v = Var::new(); dag.vs.push(v); let n = dag.ctx.var(v); let c = gen_tame(&mut r); let m = dag.ctx.mul(n, c).unwrap(); acc = dag.ctx.add(acc, m).unwrap(); }
             dag.roots = vec![acc];
         }
-        let roots = all_nodes(&dag, 40);
+        let roots = all_nodes(&dag, std::env::var("FV_ALLNODES").ok().and_then(|v| v.parse().ok()).unwrap_or(40));
         let dag = Dag { ctx: dag.ctx, roots: roots.clone(), vs: dag.vs };
         for n in &roots { *ops_seen.entry(op_name(&dag, *n)).or_default() += 1; }
         let nvars = 3 + dag.vs.len();
@@ -261,6 +261,11 @@ pub fn run(seed: u64, count: usize, outdir: &str) -> std::io::Result<i32> {
         let mut bad = vec![];
         bad.extend(tbad);
         let jrows = grad_eval(&jit, &dag.vs, &pts, &seeds);
+        if std::env::var("FV_DEBUG").is_ok() && std::env::var("FV_ONLY").ok().and_then(|v| v.parse::<usize>().ok()) == Some(ci) {
+            for k in 0..3 { let a = point_eval(&vm, &dag.vs, &pts[k]).unwrap().0; let b = point_eval(&jit, &dag.vs, &pts[k]).unwrap().0;
+                for (o, (x, y)) in a.iter().zip(&b).enumerate() { if canon_bits(*x) != canon_bits(*y) { eprintln!("point {k} output {o} node {}: vm point {x} jit point {y}", roots[o].verif_index()); } }
+                if let (Ok(vr), Ok(jr)) = (&vrows, &jrows) { for o in 0..a.len() { if canon_bits(vr[k][o].v) != canon_bits(a[o]) || canon_bits(jr[k][o].v) != canon_bits(b[o]) { eprintln!("point {k} output {o} node {}: vm point {} vm grad {} jit point {} jit grad {}", roots[o].verif_index(), a[o], vr[k][o].v, b[o], jr[k][o].v); } } } }
+        }
         // ---- the value lane of the JIT's gradient evaluation is the interpreter's, at every point (rounding-edge values included)
         if let (Ok(vr), Ok(jr)) = (&vrows, &jrows) {
             'outer: for (k, (a, b)) in vr.iter().zip(jr).enumerate() { for (o, (x, y)) in a.iter().zip(b).enumerate() {
@@ -285,6 +290,11 @@ pub fn run(seed: u64, count: usize, outdir: &str) -> std::io::Result<i32> {
         // other forms only simplification produces are reached this way)
         {
             let bx: Vec<(f32, f32)> = (0..nvars).map(|j| (pts[0][j] - 0.25, pts[0][j] + 0.25)).collect();
+            // (a point at which the sign of a zero is not fixed - min / max of opposite zeros, abs(-0), atan2(0, 0) - is left out: the
+            //  interval evaluator and the point evaluators may see different zeros there, see the C12 / C14 findings)
+            let sign_of_zero_open = { let mut orc = crate::refeval::Oracle::default();
+                let env = |v: Var| pts[0][var_id(v, &dag.vs) as usize];
+                let _ = crate::refeval::eval_arena(&dag.ctx, &env, &mut orc); orc.zero_tie || orc.atan00 || orc.atan_y_zero || orc.abs_of_neg_zero };
             macro_rules! simp { ($f:expr, $rows:expr, $name:expr) => {{
                 if let (Ok((_, Some(codes))), Ok(rows)) = (interval_eval(&$f, &dag.vs, &bx), &$rows) {
                     let tr = make_trace(&codes); let mut ws = Default::default();
@@ -301,13 +311,18 @@ pub fn run(seed: u64, count: usize, outdir: &str) -> std::io::Result<i32> {
                         Err(_) => bad.push(format!("kind=panic backend={} simplify", $name)) }
                 }
             }} }
-            simp!(vm, vrows, "vm"); simp!(jit, jrows, "jit");
+            if !sign_of_zero_open { simp!(vm, vrows, "vm"); simp!(jit, jrows, "jit"); }
         }
         for (name, rows) in [("vm", &vrows), ("jit", &jrows)] {
             let Ok(rows) = rows else { bad.push(format!("kind=panic backend={name}")); continue; };
             for (k, row) in rows.iter().enumerate().take(3) {
                 let pv = match name { "vm" => point_eval(&vm, &dag.vs, &pts[k]).map(|x| x.0), _ => point_eval(&jit, &dag.vs, &pts[k]).map(|x| x.0) };
                 let Ok(pv) = pv else { continue };
+                // a point at which the sign of a zero is open somewhere in the expression (exported or not): abs(-0) is +0 for the point
+                // evaluators and -0 for Grad::abs (the C14 finding), min / max of opposite zeros, atan2(0, .): not a point of differentiability
+                { let mut orc = crate::refeval::Oracle::default(); let env = |v: Var| pts[k][var_id(v, &dag.vs) as usize];
+                  let _ = crate::refeval::eval_arena(&dag.ctx, &env, &mut orc);
+                  if orc.zero_tie || orc.atan00 || orc.atan_y_zero || orc.abs_of_neg_zero { skipped += roots.len(); continue; } }
                 bad.extend(check_row(&dag, &roots, row, &pv, name, &mut checked, &mut skipped));
             }
         }
@@ -357,4 +372,28 @@ pub fn run(seed: u64, count: usize, outdir: &str) -> std::io::Result<i32> {
     write!(js, "\"oracle_fails\": {fails}}}").unwrap();
     std::fs::write(format!("{outdir}/stats.json"), js)?;
     Ok(if fails > 0 { 1 } else { 0 })
+}
+
+/// Compares, opcode by opcode, the value lane of the JIT gradient evaluator with the JIT point evaluator on random inputs.
+pub fn demo() {
+    use fidget_core::context::Context;
+    let mut r = Rng::new(12345);
+    for u in crate::wire::UOPS.iter() {
+        let mut ctx = Context::new(); let x = ctx.x(); let n = crate::dag::apply_un(&mut ctx, *u, x);
+        let f = JitFunction::new(&ctx, &[n]).unwrap();
+        let v = GenericVmFunction::<255>::new(&ctx, &[n]).unwrap();
+        let (mut bad, mut badvm, mut first) = (0usize, 0usize, None);
+        let pts: Vec<Vec<f32>> = (0..20000).map(|_| vec![gen_f32(&mut r, 0.02), 0.0, 0.0]).collect();
+        let seeds: Vec<Vec<[f32; 3]>> = pts.iter().map(|_| vec![[1.0, 0.0, 0.0], [0.0, 1.0, 0.0], [0.0, 0.0, 1.0]]).collect();
+        let dag = Dag { ctx, roots: vec![n], vs: vec![] };
+        let rows = grad_eval(&f, &dag.vs, &pts, &seeds).unwrap();
+        let vrows = grad_eval(&v, &dag.vs, &pts, &seeds).unwrap();
+        for (k, p) in pts.iter().enumerate() {
+            let pv = point_eval(&f, &dag.vs, p).unwrap().0[0];
+            if canon_bits(rows[k][0].v) != canon_bits(pv) && !(pv == 0.0 && rows[k][0].v == 0.0) { bad += 1; if first.is_none() { first = Some((p[0], rows[k][0].v, pv)); } }
+            let pvv = point_eval(&v, &dag.vs, p).unwrap().0[0];
+            if canon_bits(vrows[k][0].v) != canon_bits(pvv) && !(pvv == 0.0 && vrows[k][0].v == 0.0) { badvm += 1; }
+        }
+        println!("{u:?}: jit gradient value lane differs from jit point value at {bad} of 20000 inputs (interpreter: {badvm}); first {first:?}");
+    }
 }
